@@ -390,7 +390,7 @@ func (r *Resolver) AutoTA() {
 		}
 
 		if ta.DNSKey.Flags&DNSKEYFlagRevoke != 0 {
-			oldTag := tag - DNSKEYFlagRevoke
+			oldTag := unrevokedKeyTag(ta.DNSKey)
 			oldTA := kskCurrent[oldTag]
 			// RFC 5011 §4 state table: both Valid + RevBit and
 			// Missing + RevBit transition to revoked. Since Missing
@@ -615,6 +615,19 @@ func autoTARefreshFailureCounter(err error, fallback *metric.Counter) *metric.Co
 	}
 }
 
+// unrevokedKeyTag returns the key tag this key carries without its REVOKE
+// bit, i.e. the tag the trust anchor it revokes is filed under. The tag is
+// a folded checksum over the RDATA (RFC 4034 Appendix B), so setting bit
+// 0x0080 usually moves it by 128 but not always: when the sum crosses a
+// 16-bit boundary the carry moves it by 129. Subtracting 128 from the
+// revoked tag misses about one key in 512, whose revocation would then
+// never be matched to its anchor.
+func unrevokedKeyTag(k *dns.DNSKEY) uint16 {
+	plain := *k
+	plain.Flags &^= DNSKEYFlagRevoke
+	return dnssec.KeyTag(&plain)
+}
+
 // sameKeyExceptRevoke reports whether revokedKey is the same DNSKEY
 // as currentKey with only the REVOKE bit toggled. Key tags are 16-bit
 // checksums and can collide, so identifying a revocation by tag alone
@@ -685,7 +698,7 @@ func stageRevocationSelfSignatures(
 			existing.DNSKey.Flags == ta.DNSKey.Flags {
 			continue
 		}
-		oldTA := kskCurrent[tag-DNSKEYFlagRevoke]
+		oldTA := kskCurrent[unrevokedKeyTag(ta.DNSKey)]
 		if oldTA == nil || (oldTA.State != StateValid && oldTA.State != StateMissing) {
 			continue
 		}
@@ -752,7 +765,7 @@ func verifyFetchedKeysWithWork(
 		if dnskey.Flags&DNSKEYFlagRevoke == 0 {
 			continue
 		}
-		for _, candidate := range currentKeys[dnssec.KeyTag(dnskey)-DNSKEYFlagRevoke] {
+		for _, candidate := range currentKeys[unrevokedKeyTag(dnskey)] {
 			if sameKeyExceptRevoke(candidate, dnskey) {
 				tag := dnssec.KeyTag(dnskey)
 				revokedBootstrap[tag] = append(revokedBootstrap[tag], dnskey)
